@@ -1,6 +1,7 @@
 //! Shared helpers for the correspondence harness binaries (one binary per property family).
 pub mod common;
 pub mod gens;
+pub mod rpc_env;
 pub mod subs_env;
 pub mod client_mock;
 pub mod server_env;
